@@ -259,14 +259,14 @@ class Translator:
     elif alias and n.id in alias: parts = [alias[n.id]] + parts
     else: return None
     if len(parts) == 1 and parts[0] in c.sigs:
-      return (parts[0], c.sigs[parts[0]], parts[0] in c.bool, c.dirs[parts[0]])
+      return (parts[0], c.sigs[parts[0]], parts[0] in c.bool, 'own_' + c.dirs[parts[0]])
     if len(parts) == 2 and parts[0] in c.insts:
       sub, args = c.insts[parts[0]]
       if parts[1] not in sub.sigs: fail(node, 'unknown port of a sub-component')
       if sub.dirs[parts[1]] == 'wire': fail(node, 'wire of a sub-component used from outside')
       w = sub.sigs[parts[1]]
       for (_, ln, _), a in zip(sub.params, args): w = w.subst(ln, a)
-      return (f'{parts[0]}_{parts[1]}', w, parts[1] in sub.bool, 'out' if sub.dirs[parts[1]] == 'in' else 'in')
+      return (f'{parts[0]}_{parts[1]}', w, parts[1] in sub.bool, 'child_' + sub.dirs[parts[1]])
     fail(node, 'unknown signal')
 
   def fld(s, c, f): return c.rep.get(f, f)
@@ -330,8 +330,10 @@ class Translator:
     for ea, eb, node in parts:
       # which side is driven: an in port of a sub-component or an out port / wire of this component
       da, db = ea[5], eb[5]
-      if da == 'out' and db != 'out': drv, srcp = ea, eb          # 'out' = written from here (child's in port)
-      elif db == 'out' and da != 'out': drv, srcp = eb, ea
+      if da == 'child_in' and db != 'child_in': drv, srcp = ea, eb          # a child's in port can only be driven from here
+      elif db == 'child_in' and da != 'child_in': drv, srcp = eb, ea
+      elif da in ('own_in', 'child_out') and db in ('own_out', 'own_wire'): drv, srcp = eb, ea
+      elif db in ('own_in', 'child_out') and da in ('own_out', 'own_wire'): drv, srcp = ea, eb
       else: fail(node, 'cannot tell the driven side of a slice connection')
       if (drv[3] - drv[2]) != (srcp[3] - srcp[2]): fail(node, 'slice connection of different widths')
       code = f'getSlice v.{s.fld(c, srcp[1])} {srcp[2].lean()} {srcp[3].lean()}'
@@ -387,7 +389,7 @@ class Translator:
       if isinstance(tgt, ast.Subscript): sub = tgt.slice; tgt = tgt.value
       r = s.resolve(c, tgt)
       if r is None: fail(x, 'assignment target is not a signal')
-      if r[3] == 'in': fail(x, 'assignment to an in port of this component / out port of a sub-component')
+      if r[3] in ('own_in', 'child_out'): fail(x, 'assignment to an in port of this component / out port of a sub-component')
       f = s.fld(c, r[0])
       if sub is None:
         val = s.value(c, x.value, st, Lin(1) if r[2] else r[1], r[2])
